@@ -179,8 +179,14 @@ def e1_impl(run, acc, tier):
     acc.add_e1("MC_ImplR[fixed, 5 ids restricted, 2 usable slots of 3] refines Sodg", rr)
     e1_ind(run, acc)
     if tier == "thorough":
-        r3 = vlib.model_check(run, "SodgImpl", cfg_impl("fixed", cap=4, nslots=4, slotsize=3), timeout=3000)
-        acc.add_e1("SodgImpl[fixed, 4 ids] refines Sodg", r3)
+        # (the full alphabet over 4 ids is 95 M transitions, 22 minutes on 8 idle cores, and timed out on a loaded machine: a check
+        # that can time out is worth nothing, so the deeper instance is a restricted alphabet too: 5 ids, 8 bind pairs, 3 usable slots)
+        cfg_r3 = ("SPECIFICATION ISpecR\nVIEW iview\nCONSTANTS Cap = 5 Labels = {\"a\"} Vals = {\"x\"} MaxN = 1 NSlots = 5 SlotSize = 3 Rules = \"fixed\"\n"
+                  " BindPairs = {1, 23, 2, 31, 4, 34, 12, 40} PutIds = {0, 1, 3, 4} DataIds = {0, 1, 3, 4} AddIds = {0, 1, 2, 3, 4}\n"
+                  "INVARIANT NoPanic\nINVARIANT CounterIsRecount\nINVARIANT TagsMatchLists\nINVARIANT ReservedKept\nINVARIANT OccupiedIsGroups\n"
+                  "INVARIANT NoDuplicateMembers\nPROPERTY RefinesSodg\nCHECK_DEADLOCK FALSE\n")
+        r3 = vlib.model_check(run, "MC_ImplR", cfg_r3, timeout=3000)
+        acc.add_e1("MC_ImplR[fixed, 5 ids, 8 bind pairs, 3 usable slots of 3] refines Sodg", r3)
         # the real constants (16 member lists of 16, capacity 40) cannot be explored exhaustively: random simulation, invariants only
         cfg = ("SPECIFICATION ISpec\nCONSTANTS Cap = 40 Labels = {\"a\", \"b\", \"c\"} Vals = {\"x\", \"y\"} MaxN = 2 NSlots = 16 SlotSize = 16 Rules = \"fixed\"\n"
                "INVARIANT NoPanic\nINVARIANT CounterIsRecount\nINVARIANT TagsMatchLists\nINVARIANT ReservedKept\nINVARIANT OccupiedIsGroups\nINVARIANT NoDuplicateMembers\nCHECK_DEADLOCK FALSE\n")
@@ -564,8 +570,8 @@ def plan_merge(run, prop, tier):
 
 def hexgen_cfg(maxlen, maxidx, mode, tier):
     # longer byte strings around powers of two (chunked loops, length fields of one byte, ...), indices at the edges only
-    longs = "{15, 16, 17, 23, 24, 25, 26, 31, 32, 33, 40, 41, 63, 64, 65, 127, 128, 129, 255, 256, 257}" if tier == "quick" else \
-            "{23, 24, 25, 26, 31, 32, 33, 40, 41, 48, 63, 64, 65, 127, 128, 129, 255, 256, 257, 511, 512, 513, 1000, 1023, 1024, 1025}"
+    longs = "{15, 16, 17, 23, 24, 25, 26, 31, 32, 33, 40, 41, 63, 64, 65, 127, 128, 129, 255, 256, 257, 4097}" if tier == "quick" else \
+            "{23, 24, 25, 26, 31, 32, 33, 40, 41, 48, 63, 64, 65, 127, 128, 129, 255, 256, 257, 511, 512, 513, 1000, 1023, 1024, 1025, 4095, 4096, 4097, 5000, 8193}"
     return (f"INIT Init\nNEXT Next\nCONSTANTS MaxLen = {maxlen} MaxIdx = {maxidx} Mode = \"{mode}\" LongLens = {longs}\nCHECK_DEADLOCK FALSE\n")
 
 
@@ -701,7 +707,8 @@ def plan_script(run, prop, tier):
     independently, applies the same API calls, and compares the two graphs completely (and with the model)."""
     acc = Acc()
     datas = ["CA-FE", "00-1A-2B-3C-4D-5E-6F-70-81"]
-    jobs = [("programs <=4 commands, ids {0,1}, vars {x,y}, labels foo and one Greek character", cfg_scriptgen(5, 4, [0, 1], ["x", "y"], ["foo", "%RHO%"], datas), [(2, 5), (16, 64)], 1)]
+    # the two variable names differ only by the nu sign ($x and $<nu>x are two variables; <nu> is optional in front of LITERALS only)
+    jobs = [("programs <=4 commands, ids {0,1}, vars {x,<nu>x}, labels foo and one Greek character", cfg_scriptgen(5, 4, [0, 1], ["x", "%NU%x"], ["foo", "%RHO%"], datas), [(2, 5), (16, 64)], 1)]
     if tier == "thorough":
         jobs.append(("programs <=5 commands, ids {0,1}, var {x}", cfg_scriptgen(5, 5, [0, 1], ["x"], ["foo"], ["CA-FE"]), [(2, 5), (3, 9)], 1))
         jobs.append(("programs <=4 commands, ids {0,2,3}, vars {x,y}", cfg_scriptgen(6, 4, [0, 2, 3], ["x", "y"], ["foo", "b"], datas), [(2, 6)], 1))
@@ -912,7 +919,11 @@ def plan_c19(run, prop, tier):
             def _cfg(c):
                 c = dict(c)
                 if c["op"] == "new":
-                    c["n"], c["cap"] = n, cap
+                    # graphs created with the base capacity get the new one; a merge operand that was created with ANOTHER
+                    # capacity keeps its own (or the new one if that is larger: its ids must still fit)
+                    if (n, cap) != (b["n"], b["cap"]):
+                        c["cap"] = cap if c.get("cap") == b["cap"] else max(c.get("cap", cap), cap)
+                    c["n"] = n
                 return c
             css = [[_cfg(c) for c in sg] for sg in segs]
             cs = [c for sg in css for c in sg]
@@ -932,7 +943,8 @@ def plan_c19(run, prop, tier):
                 acc.fails.append({"prop": "C19", "what": f"{kind}: N={n} cap={cap} differs from N={b['n']} cap={b['cap']} at call {diff_at + 1} "
                                                          f"({json.dumps(cs[diff_at])[:120] if diff_at < len(cs) else 'length'})",
                                   "source": f"differential replay, profile {b['profile']}",
-                                  "replay": {"kind": "diff", "a": {"n": b["n"], "cap": b["cap"]}, "b": {"n": n, "cap": cap}, "calls": (css[where[diff_at][0]][:where[diff_at][1] + 1] if diff_at < len(where) else css[-1])}, "sig": "diff"})
+                                  "replay": {"kind": "diff", "a": {"n": b["n"], "cap": b["cap"]}, "b": {"n": n, "cap": cap}, "calls": (css[where[diff_at][0]][:where[diff_at][1] + 1] if diff_at < len(where) else css[-1]),
+                                             "calls_a": (segs[where[diff_at][0]][:where[diff_at][1] + 1] if diff_at < len(where) else segs[-1])}, "sig": "diff"})
             if tier == "thorough" or kind == "other configuration":
                 v2 = vlib.judge(run, out, n, timeout=3000)
                 acc.traces += 1
@@ -1148,7 +1160,9 @@ def replay(run, prop, path):
         outs = []
         for cfgk in ("a", "a", "b"):
             cs = []
-            for c in rp["calls"]:
+            if "calls_a" in rp:
+                cs = rp["calls_a"] if cfgk == "a" else rp["calls"]          # exactly as recorded / as replayed
+            for c in ([] if "calls_a" in rp else rp["calls"]):
                 c = dict(c)
                 if c["op"] == "new":
                     c["n"], c["cap"] = rp[cfgk]["n"], rp[cfgk]["cap"]
@@ -1227,7 +1241,7 @@ def warm(run):
         vlib.emit_ts(run, emit_module(inst), cfg_emit(inst, extra))
     vlib.emit_ts(run, "MergeGen", cfg_mergegen(6, [0, 1], [1, 2, 3], 2, 3, 0, True), workers=8)
     vlib.emit_ts(run, "MergeGen", cfg_mergegen(6, [0, 1], [0, 1, 2, 3], 2, 2, 2, False), workers=8)
-    vlib.emit_ts(run, "ScriptGen", cfg_scriptgen(5, 4, [0, 1], ["x", "y"], ["foo", "%RHO%"], ["CA-FE", "00-1A-2B-3C-4D-5E-6F-70-81"]), workers=8)
+    vlib.emit_ts(run, "ScriptGen", cfg_scriptgen(5, 4, [0, 1], ["x", "%NU%x"], ["foo", "%RHO%"], ["CA-FE", "00-1A-2B-3C-4D-5E-6F-70-81"]), workers=8)
     for mode in ("access", "concat"):
         vlib.emit_ts(run, "HexGen", hexgen_cfg(11, 12, mode, "quick"))
     vlib.emit_ts(run, "LabelGen", "INIT Init\nNEXT Next\nCONSTANTS Full = 4 LongLo = 5 LongHi = 10\nCHECK_DEADLOCK FALSE\n", timeout=3000)
